@@ -11,7 +11,8 @@
 //	(c) phase 2 (dstream.go): `normrt <lo> <hi>` (the norm decode chain on every field length of a range), `dsearch` (real
 //	    searches on adversarially built indexes — deletions, updates, merges, both ice versions, custom similarities — with
 //	    per-segment statistics recorded through a wrapping segment plugin -> `dhit` / `dmatchset` pairs) and `nscore`
-//	    (the same indexes under score mode "none")
+//	    (the same indexes under score mode "none"); mstream.go: `msearch` (scored prefix / wildcard / regexp / fuzzy / term-range
+//	    queries over 3-5 segments sharing terms, with the per-term TermQuery explanations of the same reader -> `mhit`)
 //
 // Floats travel as 16 hex digits of math.Float64bits; an explanation tree as {<value bits>;<message>;<child>…}.
 package main
@@ -440,6 +441,12 @@ func (h) Gen(r *hlib.Rand, tier string, scale int, emit func(string)) {
 		nD = 900 * scale
 	}
 	genD(r, nD, emit)
+	// scored multi-term queries (prefix / wildcard / regexp / fuzzy / term range) over 3-5 segments that share terms
+	nM := 12 * scale
+	if tier == "thorough" {
+		nM = 300 * scale
+	}
+	genM(r, nM, emit)
 }
 
 // ------------------------------------------------------------------------------------------------ execution
@@ -613,6 +620,9 @@ func (h) Exec(line string, out func(string, string), st *hlib.Stats, work string
 	switch w[0] {
 	case "dsearch", "dhit", "dmatchset":
 		execD(w, line, out, st, work)
+		return
+	case "msearch", "mhit", "mmatchset":
+		execM(w, line, out, st, work)
 		return
 	case "nscore":
 		execN(w, line, out, st, work)
